@@ -445,6 +445,28 @@ pub fn hostile_footers() -> Vec<Vec<u8>> {
     let mut long_ok = b"EST5EDT,M3.2.0,M11.1.0".to_vec();
     long_ok.extend(vec![b' '; 1100]);
     v.push(long_ok);
+    // abbreviation lengths on both sides of the 30-byte capacity, for the
+    // standard and the daylight abbreviation, unquoted and quoted (appended
+    // last: the footer indices above appear in case descriptions)
+    for quoted in [false, true] {
+        for (std_len, dst_len) in [(3usize, 29usize), (3, 30), (3, 31), (29, 30), (29, 31), (30, 29), (30, 30), (30, 31), (30, 32), (31, 3)] {
+            let mut f = vec![];
+            let name = |f: &mut Vec<u8>, c: u8, n: usize| {
+                if quoted {
+                    f.push(b'<');
+                }
+                f.extend(vec![c; n]);
+                if quoted {
+                    f.push(b'>');
+                }
+            };
+            name(&mut f, b'A', std_len);
+            f.push(b'5');
+            name(&mut f, b'B', dst_len);
+            f.extend(b",M3.2.0,M11.1.0");
+            v.push(f);
+        }
+    }
     v
 }
 
